@@ -1,5 +1,6 @@
 CONSTANTS
   MaxLen = 2
+  MaxInner = 2
   MaxKeys = 1
   Export = TRUE
 SPECIFICATION Spec
